@@ -71,7 +71,7 @@ theorem replaceInline_frame (text : Str) (e : Expand) : Pres Frame (replaceInlin
   have hm := macrosRender_frame rec env hs
   frame_start; unfold replaceInline; wp_go
 
-theorem replaceGroupText_frame (g : Str) (sp : Bool) (e : Expand) : Pres Frame (replaceGroupText rec env g sp e) := by
+theorem replaceGroupText_frame (g : Str) (sp : Bool) (e : Expand) (ia : Bool) : Pres Frame (replaceGroupText rec env g sp e ia) := by
   have hr := replaceInline_frame rec env hs
   frame_start; unfold replaceGroupText; wp_go
 
